@@ -109,6 +109,11 @@ def register():
         return x
 
     @command
+    def tnum(x):
+        _log("root", "tnum", x)
+        return 7 if x is None else "t" + _str(x)    # the TYPE of the result depends on the input
+
+    @command
     def boom(x):
         _log("root", "boom", x)
         raise Exception("boom")
@@ -170,7 +175,7 @@ def register():
 # commands of liquer.ext.basic that belong to the vocabulary (their semantics are mirrored in Vocab.lean too)
 LIBRARY_COMMANDS = ["let", "flag", "state_variable", "ns"]
 VOCAB = ["one", "num", "hello", "vals", "add", "cat", "rep", "argsc", "fl", "bo", "ident", "boom", "vol", "nocache", "app", "sub",
-         "attr1", "attr2", "getvar", "only"] + LIBRARY_COMMANDS
+         "attr1", "attr2", "getvar", "only", "tnum"] + LIBRARY_COMMANDS
 
 # pool of float argument texts; the translator emits (text, repr(float(text)) | invalid) for each
 FLOAT_POOL = ["0.5", "1", "-2", "1e3", "1.50", ".5", "5.", "1_0.5", "inf", "-inf", "nan", "1e-7", "12345678901234567890", "0.1", "3.14159", " 2.5 ",
